@@ -61,7 +61,15 @@ NormFlags(f) == (IF LM \in Range(f) THEN <<LM>> ELSE <<>>) \o (IF LPp \in Range(
 Norm(t) == Expr(NormFlags(t.flags), NormSeq(t.seq))
 
 \* --------------------------------------------------------------- lexical
-IdRe     == CatAll(<<Chr(In(Word \ Digit)), Star(Chr(In(Word))), WordB>>)          \* [^\d\W]\w*\b
+\* rrel_id  [^\d\W]\w*\b  is Unicode aware.  Outside ASCII the module knows the class of the
+\* code points of this table only (the harness checks the table against Python's `re` before it
+\* uses any of them); every other non-ASCII code point is outside the fragment.
+UniLetters == {233, 201, 246, 252, 223, 937, 969, 1103, 1046, 20013}   \* e' E' o" u" sz Omega omega ya Zhe zhong
+UniDigits  == {1635, 2409}                         \* ARABIC-INDIC THREE, DEVANAGARI THREE: \d and \w
+IdChar   == Word \cup UniLetters \cup UniDigits                                  \* \w
+IdStart  == (Word \ Digit) \cup UniLetters                                      \* [^\d\W]
+\* after a word character, \b holds exactly when no word character follows
+IdRe     == CatAll(<<Chr(In(IdStart)), Star(Chr(In(IdChar))), Look(Chr(In(IdChar)), FALSE)>>)
 StrRe(q) == CatAll(<<One(q), Star(Alt(Cat(One(BSL), One(q)), Chr(NotIn({q})))), One(q)>>)
 FlagsRe  == CatAll(<<One(PLUS), Plus(Chr(In({LM, LPp}))), One(COLON)>>)            \* \+[mp]+:
 DotsRe   == Plus(One(DOT))                                                         \* \.+
